@@ -151,6 +151,41 @@ func StrN(t *rapid.T, label string, n int, o Opts) string {
 	}
 }
 
+// topicDictionary holds strings with a meaning in MQTT topic syntax: shared
+// subscriptions, system topics, wildcards, empty levels.
+var topicDictionary = []string{
+	"$share/grp", "$share/grp/", "$share/grp/a/b", "$share//a", "$share", "$share/", "$share/g+/a", "$share/grp/#",
+	"$SYS/#", "$SYS/broker/load", "#", "+", "a/+/b", "/", "//", "a/", "/a", "$", "+/+", "a/#", "a/b/c", "sensors/+/temp",
+}
+var topicTokens = []string{"$share", "$SYS", "/", "/", "+", "#", "a", "b", "grp", "$", "temp"}
+
+// Topic draws a topic name / topic filter: mostly like Str, but a third of
+// the time from the MQTT topic dictionary or composed of topic tokens.
+func Topic(t *rapid.T, label string, o Opts, nonEmpty bool) string {
+	// a topic NAME in a spec-valid frame carries no wildcard characters
+	clean := func(s string) string {
+		if o.SpecValid && !strings.Contains(label, "filter") {
+			s = strings.NewReplacer("+", "p", "#", "h").Replace(s)
+		}
+		return s
+	}
+	switch k := rapid.IntRange(0, 9).Draw(t, label+".topickind"); {
+	case k < 2:
+		return clean(rapid.SampledFrom(topicDictionary).Draw(t, label+".dict"))
+	case k < 3:
+		n := rapid.IntRange(1, 5).Draw(t, label+".ntok")
+		var sb strings.Builder
+		for i := 0; i < n; i++ {
+			sb.WriteString(rapid.SampledFrom(topicTokens).Draw(t, label+".tok"))
+		}
+		return clean(sb.String())
+	}
+	if nonEmpty {
+		return NonEmptyStr(t, label, o)
+	}
+	return Str(t, label, o)
+}
+
 // NonEmptyStr draws a string of length >= 1.
 func NonEmptyStr(t *rapid.T, label string, o Opts) string {
 	n := Len(t, label, o)
@@ -266,11 +301,7 @@ func UserProps(t *rapid.T, label string, o Opts) []model.KV {
 
 func Will(t *rapid.T, o Opts) *model.Will {
 	w := &model.Will{}
-	if o.SpecValid || o.WellFormed {
-		w.Topic = NonEmptyStr(t, "will.topic", o)
-	} else {
-		w.Topic = Str(t, "will.topic", o)
-	}
+	w.Topic = Topic(t, "will.topic", o, o.SpecValid || o.WellFormed)
 	if present(t, "will.payload") {
 		w.Payload = Bytes(t, "will.payload", o)
 	}
@@ -284,7 +315,7 @@ func Will(t *rapid.T, o Opts) *model.Will {
 		w.ContentType = Str(t, "will.ctype", o)
 	}
 	if present(t, "will.rtopic") {
-		w.ResponseTopic = Str(t, "will.rtopic", o)
+		w.ResponseTopic = Topic(t, "will.rtopic", o, false)
 	}
 	if present(t, "will.corr") {
 		w.CorrelationData = Bytes(t, "will.corr", o)
@@ -412,7 +443,7 @@ func Packet(t *rapid.T, typ uint8, o Opts) model.Packet {
 			m.TopicAlias = U16(t, "topicalias")
 		}
 		if m.TopicAlias == 0 || present(t, "topic") {
-			m.TopicName = Str(t, "topic", o)
+			m.TopicName = Topic(t, "topic", o, false)
 		}
 		if (o.WellFormed || o.SpecValid) && m.TopicName == "" && m.TopicAlias == 0 {
 			m.TopicName = NonEmptyStr(t, "topic2", o)
@@ -428,7 +459,7 @@ func Packet(t *rapid.T, typ uint8, o Opts) model.Packet {
 			m.MessageExpiry = U32(t, "expiry")
 		}
 		if present(t, "rtopic") {
-			m.ResponseTopic = Str(t, "rtopic", o)
+			m.ResponseTopic = Topic(t, "rtopic", o, false)
 		}
 		if present(t, "corr") {
 			m.CorrelationData = Bytes(t, "corr", o)
@@ -474,12 +505,12 @@ func Packet(t *rapid.T, typ uint8, o Opts) model.Packet {
 		for i := 0; i < n; i++ {
 			var f model.Filter
 			if o.SpecValid || o.WellFormed {
-				f.Filter = NonEmptyStr(t, "filter", inner)
+				f.Filter = Topic(t, "filter", inner, true)
 				f.Opts = uint8(rapid.IntRange(0, 2).Draw(t, "fqos")) |
 					uint8(rapid.IntRange(0, 3).Draw(t, "fnlrap"))<<2 |
 					uint8(rapid.IntRange(0, 2).Draw(t, "fretain"))<<4
 			} else {
-				f.Filter = Str(t, "filter", inner)
+				f.Filter = Topic(t, "filter", inner, false)
 				f.Opts = rapid.Uint8().Draw(t, "fopts")
 			}
 			m.Filters = append(m.Filters, f)
@@ -518,9 +549,9 @@ func Packet(t *rapid.T, typ uint8, o Opts) model.Packet {
 		}
 		for i := 0; i < n; i++ {
 			if o.SpecValid || o.WellFormed {
-				m.UnsubFilters = append(m.UnsubFilters, NonEmptyStr(t, "filter", inner))
+				m.UnsubFilters = append(m.UnsubFilters, Topic(t, "filter", inner, true))
 			} else {
-				m.UnsubFilters = append(m.UnsubFilters, Str(t, "filter", inner))
+				m.UnsubFilters = append(m.UnsubFilters, Topic(t, "filter", inner, false))
 			}
 		}
 		m.UserProps = UserProps(t, "up", o)
